@@ -127,7 +127,15 @@ def build(entry, rs):
         return (lambda s: R.random_parafac2(shapes, Rk, full=bool(it == 1), random_state=s, normalise_factors=bool(it == 2))), dict(d, shape=shapes)
     # the SVD routine is a parameter of every SVD-initialised / projection-based algorithm; with the randomized one the seed has to reach it
     rsvd = bool(rs.rand() < 0.35)
-    sv = {"init": "svd", "svd": "randomized_svd"} if rsvd else {"init": "random"}
+    # ... named, or handed over as the function itself / a partial application of it (svd_interface documents "a name or a callable"
+    # and forwards its keywords, random_state included)
+    import functools
+    from tensorly.tenalg.svd import randomized_svd as _rsvd_fn
+    spell = gen.choice(rs, ["name", "name", "function", "partial"])
+    rsvd_arg = {"name": "randomized_svd", "function": _rsvd_fn, "partial": functools.partial(_rsvd_fn, n_oversamples=int(rs.randint(1, 6)))}[spell]
+    if rsvd:
+        d["svd_spelled_as"] = spell
+    sv = {"init": "svd", "svd": rsvd_arg} if rsvd else {"init": "random"}
     if entry == "parafac":
         o = {"normalize_factors": bool(rs.rand() < 0.3), "linesearch": bool(rs.rand() < 0.2)}
         return (lambda s: D.parafac(X, Rk, n_iter_max=it, random_state=s, return_errors=True, **sv, **o)), dict(d, randomized_svd=rsvd, **o)
@@ -149,7 +157,7 @@ def build(entry, rs):
     if entry == "tucker_randomized_svd":
         rk = [int(rs.randint(1, min(s, 3) + 1)) for s in shp]
         mk = (rs.uniform(size=X.shape) < 0.8).astype(float) if rs.rand() < 0.5 else None    # masked: the SVD is repeated inside the imputation loop
-        return (lambda s: D.tucker(X, rk, n_iter_max=it, init="svd", svd="randomized_svd", random_state=s, mask=mk)), dict(d, rank=rk, masked=mk is not None)
+        return (lambda s: D.tucker(X, rk, n_iter_max=it, init="svd", svd=rsvd_arg, random_state=s, mask=mk)), dict(d, rank=rk, masked=mk is not None, svd_spelled_as=spell)
     if entry == "nn_tucker":
         rk = [int(rs.randint(1, min(s, 3) + 1)) for s in shp]
         return (lambda s: D.non_negative_tucker(Xp, rk, n_iter_max=it, init="random", random_state=s, return_errors=True)), dict(d, rank=rk)
@@ -160,8 +168,15 @@ def build(entry, rs):
         I, K = int(rs.randint(2, 5)), int(rs.randint(3, 6))
         r2 = int(rs.randint(1, min(3, K) + 1))
         sl = [rs.standard_normal((int(rs.randint(r2 + 1, 7)), K)) for _ in range(I)]
+        if rs.rand() < 0.35:
+            # few short slices with many columns: the SVD start then works on the stacked slices instead of the cross-product
+            I = int(rs.randint(2, 4))
+            rows_ = [int(rs.randint(r2 + 1, 5)) for _ in range(I)]
+            K = sum(rows_) + int(rs.randint(0, 12))
+            sl = [rs.standard_normal((r_, K)) for r_ in rows_]
+            d["slices"] = "wide"
         if entry == "parafac2":
-            p2o = {"init": gen.choice(rs, ["random", "svd"]), "svd": "randomized_svd"} if rsvd else {"init": "random"}
+            p2o = {"init": gen.choice(rs, ["random", "svd", "svd"]), "svd": rsvd_arg} if rsvd else {"init": "random"}
             return (lambda s: D.parafac2(sl, r2, n_iter_max=it + (6 if rsvd else 0), random_state=s, return_errors=True, **p2o)), dict(d, shape=[list(x.shape) for x in sl], rank=r2, randomized_svd=rsvd)
         return (lambda s: _parafac2.initialize_decomposition(sl, r2, init="random", random_state=s)), dict(d, shape=[list(x.shape) for x in sl], rank=r2)
     if entry in ("tr_als", "tr_als_sampled"):
@@ -187,7 +202,7 @@ def build(entry, rs):
         M = rs.standard_normal((int(rs.randint(2, 9)), int(rs.randint(2, 9))))
         k = int(rs.randint(1, 5))
         mk = (rs.uniform(size=M.shape) < 0.8).astype(float) if rs.rand() < 0.5 else None
-        return (lambda s: svd_interface(M, method="randomized_svd", n_eigenvecs=k, random_state=s, mask=mk)), dict(d, shape=list(M.shape), rank=k, masked=mk is not None)
+        return (lambda s: svd_interface(M, method=rsvd_arg, n_eigenvecs=k, random_state=s, mask=mk)), dict(d, shape=list(M.shape), rank=k, masked=mk is not None, svd_spelled_as=spell)
     if entry == "sample_khatri_rao":
         mats = [rs.standard_normal((int(rs.randint(2, 6)), Rk)) for _ in range(int(rs.randint(2, 4)))]
         return (lambda s: D.sample_khatri_rao(mats, 7, random_state=s, return_sampled_rows=True)), dict(d, shape=[list(m.shape) for m in mats])
